@@ -98,15 +98,19 @@ static void rnode_free(struct rnode *rnode)
 static int uc_len(char *s)
 {
 	int c = (unsigned char) s[0];
+	int n = 1, i;
 	if (~c & 0xc0)		/* ASCII or invalid */
 		return c > 0;
 	if (~c & 0x20)
-		return 2;
-	if (~c & 0x10)
-		return 3;
-	if (~c & 0x08)
-		return 4;
-	return 1;
+		n = 2;
+	else if (~c & 0x10)
+		n = 3;
+	else if (~c & 0x08)
+		n = 4;
+	for (i = 1; i < n; i++)	/* a truncated sequence ends at the terminator */
+		if (!s[i])
+			return i;
+	return n;
 }
 
 static int uc_dec(char *s)
@@ -114,6 +118,8 @@ static int uc_dec(char *s)
 	int c = (unsigned char) s[0];
 	if (~c & 0xc0)		/* ASCII or invalid */
 		return c;
+	if (uc_len(s) < (~c & 0x20 ? 2 : ~c & 0x10 ? 3 : ~c & 0x08 ? 4 : 1))
+		return 0x200000 | c;	/* truncated sequence: not a code point */
 	if (~c & 0x20)
 		return ((c & 0x1f) << 6) | (s[1] & 0x3f);
 	if (~c & 0x10)
@@ -292,7 +298,7 @@ static int ratom_match(struct ratom *ra, struct rstate *rs)
 				c1 = tolower(c1);
 			if (rs->flg & REG_ICASE && c2 < 128 && isupper(c2))
 				c2 = tolower(c2);
-			if (c1 != c2)
+			if (c1 != c2 || uc_len(ra->s + pos) != uc_len(rs->s + pos))
 				return 1;
 			pos += uc_len(ra->s + pos);
 		}
